@@ -47,7 +47,7 @@ def witness_search(tier, seed):
     from simfile.convert import ssc_to_sm, sm_to_ssc, InvalidPropertyBehavior as B, PropertyType as P, InvalidPropertyException
     kinds = {"VERSION": "SSC_VERSION", "ORIGIN": "METADATA", "JACKET": "FILE_PATH", "COMBOS": "GAMEPLAY_EVENT", "WARPS": "TIMING_DATA",
              "LABELS": "METADATA", "FAKES": "GAMEPLAY_EVENT"}
-    values = {"absent": None, "empty": "", "default": "D", "blankdefault": " D ", "other": "9.000=9"}
+    values = {"absent": None, "empty": "", "default": "D", "blankdefault": " D ", "other": "9.000=9", "zero-length": "16.000=0.000", "two-lines": "0.000=0.000,\n8.000=0"}
     for prop, kind in kinds.items():
         for bname in ("COPY_ANYWAY", "IGNORE", "ERROR_UNLESS_DEFAULT", "ERROR", None):
             for vname, v in values.items():
